@@ -1,0 +1,58 @@
+//go:build verif
+
+package machine
+
+import "sync/atomic"
+
+// Verification hooks, compiled in only with the "verif" build tag. They add
+// named schedule points and read-only accessors for external test harnesses
+// and never change the behavior of the machine.
+
+// VerifHook, when set, is called at every schedule point with the name of the
+// point and the machine reaching it. The hook may block to hold the machine at
+// that point.
+var VerifHook atomic.Pointer[func(point string, m *Machine)]
+
+func verifPoint(point string, m *Machine) {
+	if h := VerifHook.Load(); h != nil {
+		(*h)(point, m)
+	}
+}
+
+// VerifQueueProcessing tells if a goroutine currently owns the queue.
+func (m *Machine) VerifQueueProcessing() bool {
+	return m.queueProcessing.Load()
+}
+
+// VerifHandlerLoopRunning tells if a handler loop has ever been started.
+func (m *Machine) VerifHandlerLoopRunning() bool {
+	return m.handlerLoopRunning.Load()
+}
+
+// VerifOpenBindings returns the number of open subscription bindings and
+// state contexts.
+func (m *Machine) VerifOpenBindings() int {
+	sm := m.subs
+	sm.Mx.Lock()
+	defer sm.Mx.Unlock()
+
+	seenW := map[*WhenBinding]struct{}{}
+	for _, bs := range sm.when {
+		for _, b := range bs {
+			seenW[b] = struct{}{}
+		}
+	}
+	seenT := map[*WhenTimeBinding]struct{}{}
+	for _, bs := range sm.whenTime {
+		for _, b := range bs {
+			seenT[b] = struct{}{}
+		}
+	}
+	n := len(seenW) + len(seenT) + len(sm.stateCtx) + len(sm.whenQuery) +
+		len(sm.whenQueue) + len(sm.whenQueueEnds)
+	for _, bs := range sm.whenArgs {
+		n += len(bs)
+	}
+
+	return n
+}
